@@ -285,7 +285,7 @@ def _q(ta, tb, U=False, A=False, tag=None, og=False):
 
 DEFAULT_MIX = {"uniform": 4, "sweep": 2, "adaptive": 2, "cluster": 2, "nested": 1, "tiny": 1, "requery": 3,
                "whole": 0.5, "point": 0.7, "zero": 0.5, "triple": 3, "offgrid": 0.7, "dyadic": 1.5, "outside": 0.4,
-               "env": 0.25}
+               "env": 0.25, "sib": 0.0}
 
 
 def _dyadic(rng, cfg, dom):
@@ -355,6 +355,8 @@ def gen_ops(rng, cfg, dom, n_target, mix=None):
                 if cur < mid < nxt:
                     ops.append(_q(cur, mid, *fl, tag="half"))
                     ops.append(_q(mid, nxt, *fl, tag="half"))
+                    if rng.random() < 0.3:
+                        ops.append(_q(cur, nxt, *fl, tag="refull"))  # the full step again, right after its halves
                 if rng.random() < 0.4:
                     h *= 0.5
                 else:
@@ -427,6 +429,14 @@ def gen_ops(rng, cfg, dom, n_target, mix=None):
             # environment perturbation between queries: the process-wide default dtype is switched (legal, and
             # irrelevant to an object whose dtype was fixed at construction)
             ops.append({"op": "env", "default_dtype": rng.choice(["float32", "float64", "float64"])})
+        elif k == "sib":
+            # a query to a *sibling object* (same entropy, other sample shape / dtype) living in the same process
+            a, b = ordered(_t(rng, cfg, dom), _t(rng, cfg, dom))
+            prev = [o for o in ops if o["op"] == "q" and not o.get("og")]
+            if prev and rng.random() < 0.7:
+                o = rng.choice(prev)
+                a, b = xf(o["ta"]), xf(o["tb"])
+            ops.append({"op": "sib", "ta": fx(a), "tb": fx(b)})
         elif k == "dyadic":
             a, b = ordered(_dyadic(rng, cfg, dom), _dyadic(rng, cfg, dom))
             ops.append(_q(a, b, U, A, tag="dyadic"))
@@ -476,7 +486,7 @@ def add_faults(rng, ops, rate):
     if rate <= 0:
         return
     for op in ops:
-        if op["op"] == "env":
+        if op["op"] in ("env", "sib"):
             continue
         fs = []
         if rng.random() < rate:
